@@ -12,8 +12,8 @@ from explore import expect, conc, Violation
 from models import int_to_chars
 
 PROPERTY = 'C10'
-BUDGET = {'quick': 900, 'thorough': 3000}
-BOUNDS = {'quick': dict(max_segs=3, val_len=1, max_sym=4), 'thorough': dict(max_segs=4, val_len=2, max_sym=6)}
+BUDGET = {'quick': 900, 'thorough': 1500}
+BOUNDS = {'quick': dict(max_segs=3, val_len=1, max_sym=4), 'thorough': dict(max_segs=4, val_len=2, max_sym=5)}
 ASSUMPTIONS = [
     'bounded: tokens of <= max_segs segments, variable values of <= val_len characters (arbitrary scalars except NUL/newline); literal characters exclude quotes, backquote, backslash and parentheses (those make the word a different kind of word: embedded quoting / command substitution) and digits (`$1` is positional-parameter syntax, property C15)',
     'variables A, AB, B live in the shell variable table (tokens of <= 2 segments with one referenced name: also exported, or exported with an older value left in the shell table - the exported value is the current one), every other name is unset; $$ is an arbitrary pid; previous_status arbitrary 0..255',
